@@ -24,6 +24,14 @@ template <> struct TN<double>
 {
     static const char* n () { return "double"; }
 };
+template <> struct TN<int>
+{
+    static const char* n () { return "int"; }
+};
+template <> struct TN<short>
+{
+    static const char* n () { return "short"; }
+};
 
 template <class M, int N> static bool all_finite (const M& m)
 {
